@@ -28,6 +28,7 @@ import (
 	"flag"
 	"fmt"
 	"io"
+	"math"
 	"math/rand"
 	"os"
 	"sort"
@@ -94,12 +95,12 @@ type Behaviour struct {
 }
 
 var (
-	gseq            atomic.Uint64
-	measureBudget   int64
-	measureMu       sync.Mutex
-	measureUsed     = map[string]int64{}
-	flagSlowMs      = flag.Int("slow-ms", 1000, "an Ask that has not returned this long after its context ended is measured again")
-	flagTimeoutMs   = flag.Int("timeout-ms", 3000, "... and reported as Timeout if it still has not returned by then")
+	gseq          atomic.Uint64
+	measureBudget int64
+	measureMu     sync.Mutex
+	measureUsed   = map[string]int64{}
+	flagSlowMs    = flag.Int("slow-ms", 1000, "an Ask that has not returned this long after its context ended is measured again")
+	flagTimeoutMs = flag.Int("timeout-ms", 3000, "... and reported as Timeout if it still has not returned by then")
 )
 
 // reserveMeasurement: may this process spend another multi-second promptness measurement on this stack kind?
@@ -239,6 +240,8 @@ func parseReq(p []byte) (reqInfo, bool) {
 }
 
 // respLen: the length of the answer for class cls, relative to the asker's buffer (want)
+var negValues = []int{-1, -256, -2, -65536, -255, -512, -257, math.MinInt32, -1 << 24, math.MinInt64, -1 << 32, -128}
+
 func respLen(cls string, want, k int) int {
 	switch cls {
 	case "zero":
@@ -400,8 +403,13 @@ func (r *run) handler(srv *Node) func(ctx context.Context, resp []byte, src stri
 		if q.cls != "neg" && L <= len(resp) {
 			fillResp(resp[:L], r.beh.ID, srv.Name, id, inv)
 			n, d = L, digest(resp[:L])
+		} else if q.cls == "neg" {
+			// a failure is ANY negative value: values whose low byte / low word is zero or that do not fit 32 bits
+			// must fail exactly like -1
+			n = negValues[(r.beh.ID+id*3+inv)%len(negValues)]
 		}
-		r.emit(Event{Ev: "HEnd", ID: id, Inv: inv, Node: srv.Name, N: n, D: d, Info: q.cls})
+		// the log carries the value clipped to what TLC's integers hold
+		r.emit(Event{Ev: "HEnd", ID: id, Inv: inv, Node: srv.Name, N: max(n, -(1 << 30)), D: d, Info: q.cls})
 		if as != nil {
 			as.hendOnce.Do(func() { close(as.hend) })
 		}
